@@ -16,7 +16,7 @@ import time
 import z3
 
 import engine as E
-from engine import Agg, Cell, Closure, Engine, EnumV, ListV, Opaque, Opt, Ref, State, UNIT, Z
+from engine import Agg, Cell, Closure, Engine, EnumV, ListIter, ListV, Opaque, Opt, Ref, State, UNIT, Z
 from mir import Unsupported, find
 from models import Models, deref
 
@@ -266,6 +266,61 @@ class CsrEnv:
             a, b = deref(args[0]), deref(args[1])
             e = alg_term(a) == alg_term(b)
             return one(Z(z3.Not(e) if c.endswith("::ne") else e))
+        if re.match(r"^<std::vec::IntoIter<.*> as Iterator>::next$", c) and isinstance(args[0], Ref) and isinstance(args[0].cell.v, ListIter):
+            cell = args[0].cell
+            it = cell.v
+            if it.idx < len(it.items):
+                cell.v = ListIter(it.items, it.idx + 1)
+                return one(Opt(z3.BoolVal(True), it.items[it.idx]))
+            return one(Opt(z3.BoolVal(False), None))
+        if re.match(r"^Vec::<.*>::len$", c) and isinstance(deref(args[0]), ListV):
+            return one(Z(z3.IntVal(len(deref(args[0]).items))))
+        # --- iterator adaptors over python-level lists: map (closure or function item) and collect (Vec / Result<Vec, E>), element by element
+        if re.match(r"^<std::slice::Iter<'_, .*> as Iterator>::map::<", c) or re.match(r"^<std::vec::IntoIter<.*> as Iterator>::map::<", c):
+            it = deref(args[0])
+            if isinstance(it, ListIter):
+                return one(Opaque("map", (args[0], args[1])))
+        if re.match(r"^<(std::iter::)?Map<.*> as Iterator>::collect::<", c) and isinstance(deref(args[0]), Opaque) and deref(args[0]).what == "map":
+            into_result = bool(re.search(r"collect::<Result<", c))
+            it, fn_ = deref(args[0]).data
+            it = deref(it)
+            items = it.items[it.idx:]
+            st.roots["__collect_fn"] = Cell(fn_)
+            out, work = [], [(st, 0, [])]
+            while work:
+                s_, k, acc = work.pop()
+                if k == len(items):
+                    lv = ListV(acc)
+                    out.append((s_, Agg("variant:0:Ok", [Cell(lv)]) if into_result else lv))
+                    continue
+                f_ = s_.roots["__collect_fn"].v
+                elem = items[k] if isinstance(items[k], Ref) else Ref(Cell(items[k]))
+                if isinstance(f_, Closure):
+                    results = list(eng.call_closure(f_, [elem], s_))
+                elif isinstance(f_, Opaque) and f_.what == "fn-item":
+                    results = list(eng.call(f_.data, [elem], s_))
+                else:
+                    raise Unsupported("map over " + type(f_).__name__)
+                for (s2, r) in results:
+                    if not into_result:
+                        work.append((s2, k + 1, acc + [r]))
+                    elif isinstance(r, Agg) and r.kind.startswith("variant:0"):
+                        work.append((s2, k + 1, acc + [r.fields[0].v]))
+                    elif isinstance(r, Agg) and r.kind.startswith("variant:1"):
+                        out.append((s2, Agg("variant:1:Err", [Cell(r.fields[0].v)])))
+                    elif isinstance(r, Opaque) and r.what == "result":
+                        s_err = s2.clone()
+                        s_err.pc.append(z3.Not(r.data[0]))
+                        if s_err.feasible():
+                            out.append((s_err, Agg("variant:1:Err", [Cell(r.data[2])])))
+                        s2.pc.append(r.data[0])
+                        if s2.feasible():
+                            work.append((s2, k + 1, acc + [r.data[1]]))
+                    else:
+                        raise Unsupported("collect: element result " + type(r).__name__)
+            return out
+        if re.match(r"^<Cow<'_, \[u8\]> as AsRef<\[u8\]>>::as_ref$", c):
+            return one(Opaque("bytes-at", path_of(args[0])))
         if re.match(r"^<Cow<'_, \[u8\]> as Deref>::deref$", c) or re.match(r"^<BitString<'_> as AsRef<\[u8\]>>::as_ref$", c):
             return one(Opaque("bytes-at", path_of(args[0])))
         if re.match(r"^(std|alloc)::slice::<impl \[u8\]>::to_vec$", c) or re.match(r"^<Vec<u8> as From<&\[u8\]>>::from$", c):
